@@ -387,7 +387,18 @@ fn render(root: &str, path: &[Seg]) -> String {
 struct Ctx<'a> {
     rho: &'a HashMap<ObjectId, ObjectId>,
     new_objects: &'a BTreeMap<ObjectId, Object>,
-    root: String,
+    /// None = the trailer, Some((old, new)) = an indirect object
+    root: Option<(ObjectId, ObjectId)>,
+}
+
+impl Ctx<'_> {
+    fn at(&self, path: &[Seg]) -> String {
+        let root = match self.root {
+            None => "trailer".to_string(),
+            Some((old, new)) => format!("obj({} {} -> {} {})", old.0, old.1, new.0, new.1),
+        };
+        render(&root, path)
+    }
 }
 
 /// `n` must equal `o` with every resolving reference r replaced by rho(r); a reference that
@@ -400,20 +411,20 @@ fn cmp_ren<'a>(o: &'a Object, n: &'a Object, path: &mut Vec<Seg<'a>>, cx: &Ctx, 
                 if n != &Object::Reference(*nr) {
                     out.push(Mis::Content(format!(
                         "{}: reference {} {} R must become {} {} R, got {}",
-                        render(&cx.root, path), r.0, r.1, nr.0, nr.1, show(n)
+                        cx.at(path), r.0, r.1, nr.0, nr.1, show(n)
                     )));
                 }
             }
             None => match n {
                 Object::Null => {}
                 Object::Reference(x) if !cx.new_objects.contains_key(x) => {}
-                Object::Reference(x) => out.push(Mis::Dangling { path: render(&cx.root, path), orig: *r, got: *x }),
-                _ => out.push(Mis::Content(format!("{}: dangling reference {} {} R became {}", render(&cx.root, path), r.0, r.1, show(n)))),
+                Object::Reference(x) => out.push(Mis::Dangling { path: cx.at(path), orig: *r, got: *x }),
+                _ => out.push(Mis::Content(format!("{}: dangling reference {} {} R became {}", cx.at(path), r.0, r.1, show(n)))),
             },
         },
         (Object::Array(a), Object::Array(b)) => {
             if a.len() != b.len() {
-                out.push(Mis::Content(format!("{}: array length {} became {}", render(&cx.root, path), a.len(), b.len())));
+                out.push(Mis::Content(format!("{}: array length {} became {}", cx.at(path), a.len(), b.len())));
                 return;
             }
             for (i, (x, y)) in a.iter().zip(b.iter()).enumerate() {
@@ -426,12 +437,12 @@ fn cmp_ren<'a>(o: &'a Object, n: &'a Object, path: &mut Vec<Seg<'a>>, cx: &Ctx, 
         (Object::Stream(a), Object::Stream(b)) => {
             cmp_dict(&a.dict, &b.dict, path, cx, out);
             if a.content != b.content {
-                out.push(Mis::Content(format!("{}: stream body changed", render(&cx.root, path))));
+                out.push(Mis::Content(format!("{}: stream body changed", cx.at(path))));
             }
         }
         _ => {
             if o != n {
-                out.push(Mis::Content(format!("{}: expected {} got {}", render(&cx.root, path), show(o), show(n))));
+                out.push(Mis::Content(format!("{}: expected {} got {}", cx.at(path), show(o), show(n))));
             }
         }
     }
@@ -445,12 +456,12 @@ fn cmp_dict<'a>(a: &'a Dictionary, b: &'a Dictionary, path: &mut Vec<Seg<'a>>, c
                 cmp_ren(v, w, path, cx, out);
                 path.pop();
             }
-            Err(_) => out.push(Mis::Content(format!("{}: key /{} disappeared", render(&cx.root, path), String::from_utf8_lossy(k)))),
+            Err(_) => out.push(Mis::Content(format!("{}: key /{} disappeared", cx.at(path), String::from_utf8_lossy(k)))),
         }
     }
     for (k, _) in b.iter() {
         if !a.has(k) {
-            out.push(Mis::Content(format!("{}: key /{} appeared", render(&cx.root, path), String::from_utf8_lossy(k))));
+            out.push(Mis::Content(format!("{}: key /{} appeared", cx.at(path), String::from_utf8_lossy(k))));
         }
     }
 }
@@ -546,12 +557,12 @@ fn run_case(p: &Prep, bms: &[Bm], start: Option<u32>) -> Outcome {
     }
     // trailer and reachable objects
     {
-        let mut cx = Ctx { rho: &rho, new_objects: &d.objects, root: "trailer".into() };
+        let mut cx = Ctx { rho: &rho, new_objects: &d.objects, root: None };
         let mut path = vec![];
         cmp_dict(&p.doc.trailer, &d.trailer, &mut path, &cx, &mut out.mis);
         for old in &p.reach {
             let new = rho[old];
-            cx.root = format!("obj({} {} -> {} {})", old.0, old.1, new.0, new.1);
+            cx.root = Some((*old, new));
             cmp_ren(&p.doc.objects[old], &d.objects[&new], &mut path, &cx, &mut out.mis);
         }
     }
@@ -640,19 +651,22 @@ fn replace_refs(o: &mut Object, from: &BTreeSet<ObjectId>, to: ObjectId) {
     }
 }
 
-/// Attribute the case to catalogued findings only if every single mismatch satisfies the
-/// predicate of one of them AND the case passes once exactly those features are neutralised
-/// (the offending bookmarks dropped, the colliding dangling references pointed far away).
-fn classify(p: &Prep, bms: &[Bm], start: Option<u32>, out: &Outcome) -> Option<Vec<&'static str>> {
+/// The features a failing case is attributed to: finding ids, offending bookmarks, offending
+/// dangling references. None when some mismatch satisfies no catalogued predicate.
+struct Verdict {
+    found: Vec<&'static str>,
+    bad_bm: BTreeSet<usize>,
+    bad_ref: BTreeSet<ObjectId>,
+}
+
+fn predicates(p: &Prep, bms: &[Bm], start: Option<u32>, out: &Outcome) -> Option<Verdict> {
     if out.fatal.is_some() || out.mis.is_empty() {
         return None;
     }
     let s = start.unwrap_or(1);
     let n = p.doc.objects.len() as u64;
     let model = sequential_model(p, bms, s);
-    let mut found: Vec<&'static str> = vec![];
-    let mut bad_bm = BTreeSet::new();
-    let mut bad_ref = BTreeSet::new();
+    let mut v = Verdict { found: vec![], bad_bm: BTreeSet::new(), bad_ref: BTreeSet::new() };
     for m in &out.mis {
         match m {
             Mis::Content(_) => return None,
@@ -661,9 +675,9 @@ fn classify(p: &Prep, bms: &[Bm], start: Option<u32>, out: &Outcome) -> Option<V
                 if got != orig || !in_range || p.doc.objects.contains_key(orig) {
                     return None;
                 }
-                bad_ref.insert(*orig);
-                if !found.contains(&DANGLE) {
-                    found.push(DANGLE);
+                v.bad_ref.insert(*orig);
+                if !v.found.contains(&DANGLE) {
+                    v.found.push(DANGLE);
                 }
             }
             Mis::Bookmark { idx, got, expected, .. } => {
@@ -671,14 +685,18 @@ fn classify(p: &Prep, bms: &[Bm], start: Option<u32>, out: &Outcome) -> Option<V
                 if !chained || mp != *got || got == expected {
                     return None;
                 }
-                bad_bm.insert(*idx);
-                if !found.contains(&CHAIN) {
-                    found.push(CHAIN);
+                v.bad_bm.insert(*idx);
+                if !v.found.contains(&CHAIN) {
+                    v.found.push(CHAIN);
                 }
             }
         }
     }
-    // neutralise and re-run
+    Some(v)
+}
+
+/// The document with the colliding dangling references pointed far away.
+fn neutral_doc(p: &Prep, bad_ref: &BTreeSet<ObjectId>) -> Option<Prep> {
     let mut doc = p.doc.clone();
     if !bad_ref.is_empty() {
         let far = (4_100_000_000u32, 0u16);
@@ -686,14 +704,19 @@ fn classify(p: &Prep, bms: &[Bm], start: Option<u32>, out: &Outcome) -> Option<V
             return None;
         }
         for o in doc.objects.values_mut() {
-            replace_refs(o, &bad_ref, far);
+            replace_refs(o, bad_ref, far);
         }
         let mut t = Object::Dictionary(doc.trailer.clone());
-        replace_refs(&mut t, &bad_ref, far);
+        replace_refs(&mut t, bad_ref, far);
         if let Object::Dictionary(t) = t {
             doc.trailer = t;
         }
     }
+    prepare(doc).ok()
+}
+
+/// The bookmark list without the offending bookmarks (children of a dropped bookmark move to the top level).
+fn neutral_bookmarks(bms: &[Bm], bad_bm: &BTreeSet<usize>) -> Vec<Bm> {
     let mut keep: Vec<Bm> = vec![];
     let mut newidx: Vec<Option<usize>> = vec![];
     for (i, b) in bms.iter().enumerate() {
@@ -704,12 +727,44 @@ fn classify(p: &Prep, bms: &[Bm], start: Option<u32>, out: &Outcome) -> Option<V
             keep.push((b.0, b.1.and_then(|pi| newidx[pi])));
         }
     }
-    let p2 = prepare(doc).ok()?;
-    let o2 = run_case(&p2, &keep, start);
-    if o2.failed() {
-        return None;
+    keep
+}
+
+/// Memo of neutralised re-runs for one (document, start): the neutralised document per set of
+/// offending references, and the verdict per remaining bookmark list.
+#[derive(Default)]
+struct NeutralCache {
+    docs: Vec<(BTreeSet<ObjectId>, Option<Prep>, HashMap<Vec<Bm>, bool>)>,
+}
+
+/// Attribute the case to catalogued findings only if every single mismatch satisfies the
+/// predicate of one of them AND the case passes once exactly those features are neutralised
+/// (the offending bookmarks dropped, the colliding dangling references pointed far away).
+fn classify(p: &Prep, bms: &[Bm], start: Option<u32>, out: &Outcome, cache: &mut NeutralCache) -> Option<Vec<&'static str>> {
+    let v = predicates(p, bms, start, out)?;
+    let slot = match cache.docs.iter().position(|d| d.0 == v.bad_ref) {
+        Some(i) => i,
+        None => {
+            cache.docs.push((v.bad_ref.clone(), neutral_doc(p, &v.bad_ref), HashMap::new()));
+            cache.docs.len() - 1
+        }
+    };
+    let (_, p2, memo) = &mut cache.docs[slot];
+    let p2 = p2.as_ref()?;
+    let keep = neutral_bookmarks(bms, &v.bad_bm);
+    let pass = match memo.get(&keep) {
+        Some(b) => *b,
+        None => {
+            let ok = !run_case(p2, &keep, start).failed();
+            memo.insert(keep, ok);
+            ok
+        }
+    };
+    if pass {
+        Some(v.found)
+    } else {
+        None
     }
-    Some(found)
 }
 
 // ---------------------------------------------------------------------------------------------
@@ -841,6 +896,8 @@ struct Tally {
 
 struct Shared<'a> {
     run: &'a Run,
+    /// finding ids of this property that are open in known_findings.json
+    open: Vec<String>,
     full_json_left: AtomicU64,
     samples_left: AtomicU64,
 }
@@ -881,6 +938,7 @@ fn explore_doc(sh: &Shape, ids: &[ObjectId], family: &str, bm_cfgs: &[Vec<(usize
                 std::process::exit(3);
             }
             t.docs += 1;
+            let mut cache = NeutralCache::default();
             let gen = json!({"family": family, "shape": sh.to_json(), "ids": ids.iter().map(|i| vec![i.0 as u64, i.1 as u64]).collect::<Vec<_>>(),
                              "dangling": dang.iter().map(|i| vec![i.0 as u64, i.1 as u64]).collect::<Vec<_>>()});
             for cfg in bm_cfgs {
@@ -912,15 +970,23 @@ fn explore_doc(sh: &Shape, ids: &[ObjectId], family: &str, bm_cfgs: &[Vec<(usize
                 }
                 if out.failed() {
                     t.failing += 1;
-                    let full = shv.full_json_left.fetch_update(Ordering::SeqCst, Ordering::SeqCst, |x| x.checked_sub(1)).is_ok();
-                    let cj = case_json(&gen, if full { Some(&prep.doc) } else { None }, &bms, start);
-                    match classify(&prep, &bms, start, &out) {
+                    let verdict = classify(&prep, &bms, start, &out, &mut cache);
+                    let all_open = verdict.as_ref().map(|fs| fs.iter().all(|f| shv.open.iter().any(|o| o == f))).unwrap_or(false);
+                    let full = shv.full_json_left.load(Ordering::Relaxed) > 0
+                        && shv.full_json_left.fetch_update(Ordering::SeqCst, Ordering::SeqCst, |x| x.checked_sub(1)).is_ok();
+                    // cases counted under an open catalogued finding need no descriptor after the first few
+                    let (cj, text) = if all_open && !full {
+                        (Value::Null, String::new())
+                    } else {
+                        (case_json(&gen, if full { Some(&prep.doc) } else { None }, &bms, start), out.text())
+                    };
+                    match verdict {
                         Some(fs) => {
                             for f in fs {
-                                shv.run.fail(Some(f), cj.clone(), &out.text(), EXPECTED);
+                                shv.run.fail(Some(f), cj.clone(), &text, EXPECTED);
                             }
                         }
-                        None => shv.run.fail(None, cj, &out.text(), EXPECTED),
+                        None => shv.run.fail(None, cj, &text, EXPECTED),
                     }
                 }
             }
@@ -1085,7 +1151,7 @@ fn replay(run: &Run, path: &std::path::Path) -> ! {
     if out.failed() {
         println!("observed: {}", out.text());
         println!("expected: {}", EXPECTED);
-        match classify(&prep, &bms, start, &out) {
+        match classify(&prep, &bms, start, &out, &mut NeutralCache::default()) {
             Some(f) => println!("classified as: {}", f.join(", ")),
             None => println!("classified as: (none)"),
         }
@@ -1118,7 +1184,16 @@ fn main() {
     run.assume("domain: start >= 1, unique object numbers, well-formed page tree, bookmarks target existing objects; every object is a dictionary or stream with a unique integer /Tag (the tag is how the renaming is observed)");
     run.assume("a reference that resolved to nothing may afterwards be any reference to a missing object, or null");
     run.assume("objects not reachable from the trailer are only required to be renumbered (number, generation), not to have their references renamed - the statement speaks of the trailer and what is reachable from it");
-    let shv = Shared { run: &run, full_json_left: AtomicU64::new(40), samples_left: AtomicU64::new(4) };
+    let open: Vec<String> = std::fs::read_to_string(vharness::run::verif_root().join("known_findings.json"))
+        .ok()
+        .and_then(|t| serde_json::from_str::<Value>(&t).ok())
+        .and_then(|v| v["findings"].as_array().cloned())
+        .unwrap_or_default()
+        .iter()
+        .filter(|f| f["property"] == "C10" && f["status"] == "open")
+        .filter_map(|f| f["finding_id"].as_str().map(String::from))
+        .collect();
+    let shv = Shared { run: &run, open, full_json_left: AtomicU64::new(40), samples_left: AtomicU64::new(4) };
     family_a(&run, &shv);
     run.set("wall_family_a_s", json!((run.elapsed() * 10.0).round() / 10.0));
     family_b(&run, &shv);
